@@ -117,12 +117,12 @@ class Ctx:
         return True
 
     # ------------------------------------------------------------------ step 3
-    def component(self, name, cases, timeout=3000):
-        """model vs implementation on the given case lines"""
+    def component(self, name, cases, timeout=3000, model=True):
+        """model vs implementation on the given case lines (model=False: implementation only, under the sanitizers)"""
         if self.bdir is None:
             return None
         t0 = time.time()
-        res = vf.run_both(self.bdir, cases, name, timeout=timeout)
+        res = vf.run_both(self.bdir, cases, name, timeout=timeout, model=model)
         st = {'cases': res['n'], 'compared_tokens': res['compared_tokens'], 'mismatches': len(res['mismatches']),
               'crashes': len(res['crashes']), 'wall_s': round(time.time() - t0, 2)}
         self.components[name] = st
